@@ -260,6 +260,10 @@ func (s Server) LeafSelectionQuery(ctx context.Context, req *admin.LeafSelection
 			}
 		}
 
+		if config.Values == nil {
+			// a configuration that has no committed value yet comes without a map
+			config.Values = make(map[string]*configapi.PathValue)
+		}
 		for path, value := range newChanges {
 			config.Values[path] = value
 		}
